@@ -45,16 +45,44 @@ def finStr : Fin → String
   | .closing e => s!"closing:{e}"
   | .fuel => "fuel"
 
+def isAlnum (c : UInt8) : Bool := (48 ≤ c && c ≤ 57) || (65 ≤ c && c ≤ 90) || (97 ≤ c && c ≤ 122)
+def isUriWs (c : UInt8) : Bool := c == 32 || (9 ≤ c && c ≤ 13)
+
+/-- the tag of an end-to-end scenario request: what follows `/c03/<8 characters>/` in the target (whitespace removed first,
+as `uri_whitespace strip` does) -/
+def tagOf : Bytes → Bytes
+  | [] => []
+  | s@(_ :: r) =>
+    if s.take 5 == [47, 99, 48, 51, 47] ∧ ((s.drop 5).take 8).all isAlnum ∧ ((s.drop 5).take 8).length = 8 ∧ (s.drop 13).take 1 == [47]
+    then (s.drop 14).takeWhile isAlnum
+    else tagOf r
+
+def tagStr (u : Bytes) : String :=
+  let t := tagOf (u.filter fun c => !isUriWs c)
+  if t.isEmpty then "?" else String.ofList (t.map fun c => Char.ofNat c.toNat)
+
+/-- what the recording origin is predicted to note for a handed-on request -/
+def fwdStr (m : Msg) : String := s!"{Bytes.toHex m.d.method}:{tagStr m.d.uri}:{m.d.body.length}:{adler m.d.body}"
+
+def cfgOf (mode : String) : Cfg :=
+  ⟨{ relaxed := mode == "r", limit := 65536, fixCr := Gen.Http1Request.fixCr, fixLine := Gen.Http1Request.fixLine },
+    Gen.SmuggleCfg.closeAfterTeCl, Gen.SmuggleCfg.rejectNonGet09⟩
+
 def handle (line : String) : String :=
   match Driver.words line with
+  | "e" :: mode :: h :: _ =>
+    if mode ≠ "r" ∧ mode ≠ "s" then "bad-op" else
+    match Bytes.ofHex h with
+    | none => "bad-op"
+    | some stream =>
+      let r := delimit (cfgOf mode) urlView stream
+      "F=" ++ (if r.1.isEmpty then "-" else ",".intercalate (r.1.map fwdStr))
   | ["d", mode, h] =>
     if mode ≠ "r" ∧ mode ≠ "s" then "bad-op" else
     match Bytes.ofHex h with
     | none => "bad-op"
     | some stream =>
-      let cfg : Cfg := ⟨{ relaxed := mode == "r", limit := 65536, fixCr := Gen.Http1Request.fixCr, fixLine := Gen.Http1Request.fixLine },
-        Gen.SmuggleCfg.closeAfterTeCl, Gen.SmuggleCfg.rejectNonGet09⟩
-      let r := delimit cfg urlView stream
+      let r := delimit (cfgOf mode) urlView stream
       " ".intercalate (r.1.map msgStr ++ [finStr r.2])
   | _ => "bad-op"
 
